@@ -1,8 +1,193 @@
 import Genshi.Wire
+import Genshi.Model.Exec
+import Genshi.Model.ExecGraph
+import Genshi.Model.ExecParse
 namespace Driver.C14
-open Genshi
+open Genshi Genshi.Exec Genshi.Sexp
 
-/-- stub: the model driver for C14 is not built yet -/
-def handle : List Sexp → Option Sexp := fun _ => none
+def cls? : Sexp → Option Cls
+  | .atom "Markup" => some .markup
+  | .atom "Newtext" => some .newtext
+  | .atom "Oldtext" => some .oldtext
+  | _ => none
+
+def src? : Sexp → Option Src
+  | .atom "Str" => some .str
+  | .atom "Bytes" => some .bytes
+  | .atom "File" => some .file
+  | .atom "Stream" => some .stream
+  | _ => none
+
+def req? : Sexp → Option Req
+  | .atom "Dflt" => some .dflt
+  | .atom "Off" => some .off
+  | .atom "On" => some .on
+  | _ => none
+
+def parse? : Sexp → Option Parse
+  | .atom "Same" => some .same
+  | .atom "Xml" => some .xml
+  | .atom "Text" => some .text
+  | _ => none
+
+def plugin? : Sexp → Option Plugin
+  | .atom "Markup" => some .markup
+  | .atom "Text" => some .text
+  | .atom "Newtext" => some .newtext
+  | _ => none
+
+def opt? : Sexp → Option Opt
+  | .list [.atom "Absent"] => some .absent
+  | .list [.atom "None"] => some .none
+  | .list [.atom "Bool", b] => b.toBool?.map .bool
+  | .list [.atom "Int", n] => n.toNat?.map .int
+  | .list [.atom "Str", .str s] => some (.str s)
+  | _ => none
+
+def root? : Sexp → Option Root
+  | .list [.atom "Direct", c, s, own] => do
+      let c ← cls? c; let s ← src? s; let own ← own.toBool?; pure (.direct c s own)
+  | .list [.atom "Load", c, d] => do
+      let c ← cls? c; let d ← d.toBool?; pure (.load c d)
+  | .list [.atom "Pfile", p] => do let p ← plugin? p; pure (.pluginFile p)
+  | .list [.atom "Pstr", p] => do let p ← plugin? p; pure (.pluginString p)
+  | _ => none
+
+def cfg? (t l o ar : Sexp) : Option Config := do
+  let t ← req? t; let l ← req? l; let o ← opt? o; let ar ← ar.toBool?
+  pure ⟨t, l, o, ar⟩
+
+def clsOut : Cls → Sexp
+  | .markup => .atom "markup" | .newtext => .atom "newtext" | .oldtext => .atom "oldtext"
+
+def verdictOut : Verdict → Sexp
+  | .exec => .atom "exec" | .reject => .atom "reject" | .inert => .atom "inert" | .failed => .atom "failed"
+
+def optResOut : OptRes → Sexp
+  | .allow => .atom "allow" | .deny => .atom "deny" | .confError => .atom "confError" | .failed => .atom "failed"
+
+def nodeOut : Option Node → Sexp
+  | none => .atom "none"
+  | some n => .list [clsOut n.cls, verdictOut n.verdict, ofBool n.loaderFlag, ofBool n.autoReload]
+
+/-- every prefix of the include chain, root first -/
+def prefixes (r : Reach) : List Parse → List Reach
+  | [] => [r]
+  | p :: ps => r :: prefixes (.incl r p) ps
+
+def item? : Sexp → Option Item
+  | .list [.atom "T", i] => i.toNat?.map .text
+  | .list [.atom "E", i] => i.toNat?.map .expr
+  | .list [.atom "C", i, m] => do let i ← i.toNat?; let m ← m.toNat?; pure (.code i m)
+  | .list [.atom "I", n, p, d] => do
+      let n ← n.toNat?; let p ← parse? p; let d ← d.toBool?; pure (.incl n p d)
+  | _ => none
+
+def file? : Sexp → Option (Nat × File)
+  | .list [n, c, .list items] => do
+      let n ← n.toNat?; let c ← cls? c; let items ← items.mapM item?; pure (n, ⟨c, items⟩)
+  | _ => none
+
+def errOut : Option Err → Sexp
+  | none => .atom "ok"
+  | some (.syntax n) => .list [.atom "Syntax", ofNat n]
+  | some (.notFound n) => .list [.atom "notfound", ofNat n]
+  | some .diverge => .atom "diverge"
+  | some .config => .atom "config"
+  | some .unmodelled => .atom "unmodelled"
+
+def natsOut (xs : List Nat) : Sexp := .list (xs.map ofNat)
+
+/-! parse-level model: the environment (interpolate / Suite / directive table) arrives as tables -/
+open Genshi.Exec.Parse in
+def tev? : Sexp → Option TEv
+  | .list [.atom "T", .str s] => some (.text s)
+  | .list [.atom "E", .str s] => some (.expr s)
+  | _ => none
+
+open Genshi.Exec.Parse in
+def interpRow? : Sexp → Option (List Char × Except PErr (List TEv))
+  | .list [.str s, .atom "Err"] => some (s, .error .badExpr)
+  | .list [.str s, .list evs] => do let evs ← evs.mapM tev?; pure (s, .ok evs)
+  | _ => none
+
+open Genshi.Exec.Parse in
+def mkEnv (interp : List (List Char × Except PErr (List TEv))) (good : List (List Char))
+    (dirs : List (List Char)) : Env :=
+  { interp := fun s => match interp.lookup s with
+      | some r => r
+      | none => .ok [.text s],
+    compiles := fun s => good.contains s,
+    knownDirective := fun c => dirs.contains c }
+
+open Genshi.Exec.Parse in
+def xev? : Sexp → Option XEv
+  | .list [.atom "T", .str s] => some (.text s)
+  | .list [.atom "P", .str t, .str d] => some (.pi t d)
+  | .list [.atom "C", .str s] => some (.comment s)
+  | .list [.atom "O", n] => n.toNat?.map .other
+  | _ => none
+
+open Genshi.Exec.Parse in
+def seg? : Sexp → Option Seg
+  | .list [.atom "T", .str s] => some (.text s)
+  | .list [.atom "D", .str c, .str v] => some (.dir c v)
+  | .list [.atom "C"] => some .comment
+  | _ => none
+
+open Genshi.Exec.Parse in
+partial def tevOut : TEv → Sexp
+  | .text _ => .atom "T"
+  | .expr _ => .atom "E"
+  | .exec _ => .atom "X"
+  | .comment _ => .atom "C"
+  | .pi _ _ => .atom "P"
+  | .other n => .list [.atom "O", ofNat n]
+  | .incl _ => .atom "I"
+  | .sub d _ body => .list [.atom "S", .str d, .list (body.map tevOut)]
+
+open Genshi.Exec.Parse in
+def perrOut : PErr → Sexp
+  | .notAllowed => .atom "notAllowed"
+  | .badCode => .atom "badCode"
+  | .badExpr => .atom "badExpr"
+  | .badDirective => .atom "badDirective"
+
+open Genshi.Exec.Parse in
+def parseOut : Except PErr (List TEv) → Sexp
+  | .ok evs => .list [.atom "ok", .list (evs.map tevOut)]
+  | .error e => .list [.atom "err", perrOut e]
+
+def handle : List Sexp → Option Sexp
+  | [.atom "pmarkup", flag, .list interp, .list good, .list evs] => do
+      let flag ← flag.toBool?
+      let interp ← interp.mapM interpRow?
+      let good ← good.mapM Sexp.toStr?
+      let evs ← evs.mapM xev?
+      pure (parseOut (Genshi.Exec.Parse.parseMarkup (mkEnv interp good []) flag evs []))
+  | [.atom "ptext", flag, .list interp, .list good, .list dirs, .list segs] => do
+      let flag ← flag.toBool?
+      let interp ← interp.mapM interpRow?
+      let good ← good.mapM Sexp.toStr?
+      let dirs ← dirs.mapM Sexp.toStr?
+      let segs ← segs.mapM seg?
+      pure (parseOut (Genshi.Exec.Parse.parseText (mkEnv interp good dirs) flag segs [] [] 0))
+  | [.atom "render", t, l, o, ar, root, .list files, rootName, .list history] => do
+      let cfg ← cfg? t l o ar
+      let root ← root? root
+      let fs ← files.mapM file?
+      let rootName ← rootName.toNat?
+      let history ← history.mapM Sexp.toNat?
+      let fuel := fs.length + 3
+      let r := run fuel fuel cfg root fs rootName history
+      if r.err == some .unmodelled then pure (.atom "unmodelled") else
+      pure (.list [errOut r.err, natsOut r.sentinel, natsOut r.out, .list (r.history.map errOut)])
+  | [.atom "reach", t, l, o, ar, root, .list chain] => do
+      let cfg ← cfg? t l o ar
+      let root ← root? root
+      let chain ← chain.mapM parse?
+      pure (.list ((prefixes (.root root) chain).map fun r => nodeOut (node cfg r)))
+  | [.atom "parseopt", o] => do let o ← opt? o; pure (optResOut (parseOpt o))
+  | _ => none
 
 end Driver.C14
